@@ -65,6 +65,10 @@ type faultW struct {
 	w    *c13world
 }
 
+// Sync: the destination has a Sync method (like *os.File on a terminal or a pipe, it answers EINVAL). Nothing in the
+// statements makes the library call it; if it does, its answer is no failure of the record.
+func (f *faultW) Sync() error { return syscall.EINVAL }
+
 func (f *faultW) Write(p []byte) (int, error) {
 	w := f.w
 	w.perCall[f.name]++
@@ -83,7 +87,9 @@ func (f *faultW) Write(p []byte) (int, error) {
 		w.attempts = append(w.attempts, a)
 		// destinations fail with errors of different concrete types, some after a short write
 		w.nfail++
-		switch w.nfail % 12 {
+		switch w.nfail % 13 {
+		case 12: // a timeout (a destination with a write deadline), wrapped
+			return 0, fmt.Errorf("write %s: %w", f.name, os.ErrDeadlineExceeded)
 		case 9: // nothing taken and no error reported (a rate-limited or disconnected sink)
 			return 0, nil
 		case 10: // all but the last byte taken and no error reported
